@@ -62,7 +62,7 @@ type Case struct {
 	Drained bool   `json:"drained,omitempty"`
 }
 
-var waitLimit = 3 * time.Second
+var waitLimit = 20 * time.Second
 
 func timedOut() { waitLimit = 30 * time.Millisecond }
 
